@@ -31,6 +31,8 @@ ASSUMPTIONS = [
 
 DNAMES = ['d', 'e f', 'gé', 'h', 'i']
 MHASHES = [('SHA1',), ('MD5', 'SHA256'), ()]
+# hash names this build cannot compute (WHIRLPOOL: not in OpenSSL 3) or does not know at all
+UNSUPPORTED = ('WHIRLPOOL', 'BLAKE3')
 
 
 def build(depth, comps, mh, sib, seed, tamper=None):
@@ -124,6 +126,20 @@ def observe(root, fn):
     return ('exc', o['exc'], o.get('path'), o.get('class'), o.get('where'))
 
 
+def observe_on(m, fn):
+    def go():
+        r = fn(m)
+        if r is None or isinstance(r, bool):
+            return r
+        if isinstance(r, tuple):
+            return (r[0], [tuple(x) for x in r[1]])
+        return rm.from_gemato(r)
+    o = gem.call(go)
+    if o['kind'] == 'ret':
+        return ('ret', o['value'])
+    return ('exc', o['exc'], o.get('path'), o.get('class'), o.get('where'))
+
+
 def materialise(case, scratch):
     root = fresh_root(scratch)
     Tree.from_json(case['tree']).write(root)
@@ -200,17 +216,128 @@ def check_case(case, scratch, stats=None):
             out.append({'sig': sig, 'case': c,
                         'message': f'{bad}: query {label} on chain depth={depth} k={k} kind={case["kind"]} '
                         f'broken={case["broken"]}: got {got}'})
+    # one loader object for a whole sequence of queries (forward and reversed order): a sub-Manifest that was
+    # rejected once must not be usable afterwards, and one that was accepted stays subject to its chain
+    if k is not None and k >= 1 and not case['dc']:
+        qs = [q for q in queries(info, depth, sib) if not only or q[0] == only or True]
+        for order, seq in (('fwd', qs), ('rev', qs[::-1])):
+            shared = gem.loader(root)
+            for label, need, fn in seq:
+                maxlevel, needs_sib = need
+                needs_broken = needs_sib if case['broken_is_sib'] else (1 <= k <= maxlevel)
+                got = observe_on(shared, fn)
+                if stats is not None:
+                    stats.transitions += 1
+                if not needs_broken:
+                    continue
+                if stats is not None:
+                    stats.compared += 1
+                    stats.outcomes[f'shared-loader/{label.split(":")[0]}/{got[0]}:{got[1] if got[0] == "exc" else "ret"}'] += 1
+                if not (got[0] == 'exc' and got[1] == 'ManifestMismatch' and got[2] == case['broken']):
+                    if case.get('only_shared') and case['only_shared'] != [order, label]:
+                        continue
+                    sig = {'check': 'broken_chain_usable_on_reused_loader', 'api': label.split(':')[0],
+                           'got': got[1] if got[0] == 'exc' else 'ret'}
+                    out.append({'sig': sig, 'case': dict(case, only_shared=[order, label]),
+                                'message': f'broken_chain_usable_on_reused_loader: on one loader, query order {order}, '
+                                f'{label} on chain depth={depth} k={k} kind={case["kind"]} broken={case["broken"]}: '
+                                f'got {got}'})
+                    break
     if stats is not None:
         stats.evaluations += 1
     return out
 
 
 def replay(case, scratch):
+    if case.get('unsupported'):
+        st = Stats()
+        st.ABORT_AFTER = 10 ** 9
+        base, tam, info = unsupported_case(2, tuple(case['comps']), case['hname'], case['seed'],
+                                           case['kind'] or 'change_same_size', case['j'] or 2, case['at'])
+        root = fresh_root(scratch)
+        (tam if case['kind'] else base).write(root)
+        out = []
+        for label, need, fn in queries(info, 2, 0):
+            if label != case['only_query']:
+                continue
+            got = observe(root, fn)
+            if not (got[0] == 'exc' and got[1] in ('UnsupportedHash', 'ManifestMismatch')):
+                out.append({'sig': {'check': 'unverifiable_link_trusted', 'api': label.split(':')[0],
+                                    'hash': case['hname'], 'got': got[1] if got[0] == 'exc' else 'ret'},
+                            'case': case, 'message': f'unverifiable_link_trusted: {label} got {got}'})
+        return out
     return check_case(case, scratch)
 
 
+def unsupported_case(depth, comps, hname, seed, kind, j, at):
+    """Chain whose MANIFEST entry for the level-``at`` Manifest records ONLY a hash this build cannot
+    compute.  Nothing beneath that link can be authenticated: every query that needs it must fail
+    (UnsupportedHash or ManifestMismatch), on the untampered tree and after a same-size tamper alike."""
+    def patch(tree, info):
+        parent = info['mpaths'][at - 1]
+        child = info['mpaths'][at]
+        from gverif.treemodel import comp_of, compress, decompress
+        c = comp_of(os.path.basename(parent))
+        text = decompress(tree.files[parent], c).decode('utf8')
+        rel = os.path.relpath(child, os.path.dirname(parent) or '.')
+        lines = []
+        for ln in text.splitlines():
+            f = ln.split(' ')
+            if f[0] == 'MANIFEST' and rm.unescape_path(f[1])[1] == rel:
+                ln = ' '.join(f[:3] + [hname, '0' * 32])
+            lines.append(ln)
+        tree.files[parent] = compress(''.join(x + '\n' for x in lines).encode('utf8'), c)
+        # levels above the patched parent must be consistent with its new bytes
+        for lv in range(at - 2, -1, -1):
+            up, dn = info['mpaths'][lv], info['mpaths'][lv + 1]
+            cu = comp_of(os.path.basename(up))
+            t = decompress(tree.files[up], cu).decode('utf8')
+            reld = os.path.relpath(dn, os.path.dirname(up) or '.')
+            out = []
+            for ln in t.splitlines():
+                f = ln.split(' ')
+                if f[0] == 'MANIFEST' and rm.unescape_path(f[1])[1] == reld:
+                    e = rm.file_entry('MANIFEST', reld, tree.files[dn], ('SHA1',))
+                    ln = rm.entry_line(e)
+                out.append(ln)
+            tree.files[up] = compress(''.join(x + '\n' for x in out).encode('utf8'), cu)
+    base, info = build(depth, comps, ('SHA1',), 0, seed)
+    patch(base, info)
+    tam, _ = build(depth, comps, ('SHA1',), 0, seed, tamper=(kind, j))
+    patch(tam, info)
+    return base, tam, info
+
+
+def run_unsupported(spec, tier, seed, scratch, stats):
+    _u, hname = spec
+    depth = 2
+    for comps, at, (kind, j) in itertools.product([(None, None), ('gz', 'bz2'), ('xz', None)], (1, 2),
+                                                  [(None, None), ('change_same_size', 2), ('dist', 2)]):
+        base, tam, info = unsupported_case(depth, comps, hname, seed, kind or 'change_same_size', j or 2, at)
+        tree = tam if kind else base
+        root = fresh_root(scratch)
+        tree.write(root)
+        for label, need, fn in queries(info, depth, 0):
+            maxlevel, _ns = need
+            got = observe(root, fn)
+            stats.transitions += 1
+            if maxlevel < at:
+                continue
+            stats.compared += 1
+            stats.outcomes[f'unsupported-parent-hash/{label.split(":")[0]}/{got[0]}:{got[1] if got[0] == "exc" else "ret"}'] += 1
+            if not (got[0] == 'exc' and got[1] in ('UnsupportedHash', 'ManifestMismatch')):
+                case = {'unsupported': True, 'hname': hname, 'comps': list(comps), 'at': at, 'kind': kind, 'j': j,
+                        'seed': seed, 'only_query': label}
+                stats.violation({'check': 'unverifiable_link_trusted', 'api': label.split(':')[0], 'hash': hname,
+                                 'got': got[1] if got[0] == 'exc' else 'ret'}, case,
+                                f'unverifiable_link_trusted: MANIFEST entry for level {at} records only {hname}; '
+                                f'{label} (tamper={kind}) got {got}')
+        stats.evaluations += 1
+        stats.case(('unsupported', hname, comps, at, kind), nontrivial=True)
+
+
 def shards(tier, seed):
-    out = []
+    out = [('unsupported', h) for h in UNSUPPORTED]
     maxd = 3 if tier == 'quick' else 5
     for depth in range(1, maxd + 1):
         if depth <= 3:
@@ -227,6 +354,9 @@ KINDS = ['change', 'change_same_size', 'remove', 'add', 'dist']
 
 def run_shard(spec, tier, seed, scratch):
     stats = Stats()
+    if spec[0] == 'unsupported':
+        run_unsupported(spec, tier, seed, scratch, stats)
+        return stats
     _c, depth, comps = spec
     for mh, sib in itertools.product(MHASHES, (0, 1)):
         if tier == 'quick' and depth == 3 and (sib or mh != MHASHES[0]) and comps[0] not in (None, 'gz'):
